@@ -72,6 +72,9 @@ pub struct Cfg {
     pub hold_max: u32,
     /// a thread preempted inside a window after a marker is held back 0..=window_hold_max quanta
     pub window_hold_max: u32,
+    /// the emulated futex wake of a thread's clear-tid word is delivered 0..=max quanta after the
+    /// thread's exit (the kernel's zero write is visible at once)
+    pub defer_ctid_wake_max: u32,
     /// draw the uniform scheduling mode (a thread choice at every scheduling point) in half of
     /// the runs instead of one in six
     pub prefer_uniform: bool,
@@ -98,6 +101,7 @@ impl Cfg {
             atomic_extra_den: 3,
             hold_max: 0,
             window_hold_max: 0,
+            defer_ctid_wake_max: 0,
             prefer_uniform: false,
         }
     }
@@ -218,6 +222,7 @@ pub struct Out {
     pub switches: u64,
     pub parks: u64,
     pub futex_timeouts: u64,
+    pub deferred_ctid_wakes: u64,
     pub wakes: u64,
     pub ctid_wakes: u64,
     pub eagain: u64,
@@ -414,6 +419,8 @@ struct Tracer<'a> {
     switches: u64,
     parks: u64,
     timeouts: u64,
+    pending_ctid_wakes: Vec<(u64, usize, u64)>,
+    deferred_ctid_wakes: u64,
     wakes: u64,
     ctid_wakes: u64,
     eagain: u64,
@@ -502,6 +509,8 @@ pub fn run(cfg: &Cfg, dec: &mut Dec) -> Out {
         switches: 0,
         parks: 0,
         timeouts: 0,
+        pending_ctid_wakes: Vec::new(),
+        deferred_ctid_wakes: 0,
         wakes: 0,
         ctid_wakes: 0,
         eagain: 0,
@@ -553,6 +562,7 @@ pub fn run(cfg: &Cfg, dec: &mut Dec) -> Out {
         switches: t.switches,
         parks: t.parks,
         futex_timeouts: t.timeouts,
+        deferred_ctid_wakes: t.deferred_ctid_wakes,
         wakes: t.wakes,
         ctid_wakes: t.ctid_wakes,
         eagain: t.eagain,
@@ -767,6 +777,11 @@ impl<'a> Tracer<'a> {
             }
         }
         let mut cands: Vec<usize> = live.iter().copied().filter(|&t| self.runnable(t)).collect();
+        if cands.is_empty() && !self.pending_ctid_wakes.is_empty() {
+            // nobody can run until the kernel gets round to its wake
+            self.deliver_ctid_wakes(true);
+            cands = live.iter().copied().filter(|&t| self.runnable(t)).collect();
+        }
         if cands.is_empty() {
             if live.is_empty() {
                 return Err(End::Harness("no live thread and no exit status".into()));
@@ -862,6 +877,9 @@ impl<'a> Tracer<'a> {
         loop {
             if self.stops > self.cfg.max_stops {
                 return Err(End::Budget);
+            }
+            if !self.pending_ctid_wakes.is_empty() {
+                self.deliver_ctid_wakes(false);
             }
             let t = self.pick()?;
             self.quanta += 1;
@@ -1074,9 +1092,31 @@ impl<'a> Tracer<'a> {
             }
         });
         if ctid != 0 {
-            // the kernel wrote 0 and did FUTEX_WAKE(1) on a shared key: wake one emulated waiter
-            let n = self.wake(t, ctid, false, 1);
-            self.ctid_wakes += n;
+            // the kernel wrote 0 and did FUTEX_WAKE(1) on a shared key: wake one emulated waiter,
+            // now or (two separate steps in the kernel) a few quanta later
+            let delay = if self.cfg.defer_ctid_wake_max > 0 { self.dec.choose(K::Sched, self.cfg.defer_ctid_wake_max + 1) } else { 0 };
+            if delay == 0 {
+                let n = self.wake(t, ctid, false, 1);
+                self.ctid_wakes += n;
+            } else {
+                self.pending_ctid_wakes.push((self.quanta + u64::from(delay), t, ctid));
+                self.deferred_ctid_wakes += 1;
+            }
+        }
+    }
+
+    /// Deliver the deferred clear-tid wakes that are due (all of them when `all`).
+    fn deliver_ctid_wakes(&mut self, all: bool) {
+        let now = self.quanta;
+        let mut i = 0;
+        while i < self.pending_ctid_wakes.len() {
+            if all || self.pending_ctid_wakes[i].0 <= now {
+                let (_, by, addr) = self.pending_ctid_wakes.remove(i);
+                let n = self.wake(by, addr, false, 1);
+                self.ctid_wakes += n;
+            } else {
+                i += 1;
+            }
         }
     }
 
